@@ -261,6 +261,17 @@ spec fn out_wf_x(jobs: Seq<NodeInfo>, x: int) -> bool {
     forall|i: int| 0 <= i < jobs.len() && i != x ==> out_wf_one(#[trigger] jobs[i])
 }
 
+/// an Ephemeral job judged up to date (and parked until its consumers decide) has a record of its own:
+/// only then can a consumer be judged against it (C06: "Should have had history for it, if it was validated")
+spec fn val_rec(jobs: Seq<NodeInfo>, h: Map<String, String>) -> bool {
+    forall|i: int| #![trigger is_parked_eph(jobs[i].state)] 0 <= i < jobs.len() && is_parked_eph(jobs[i].state) ==> h.contains_key(jobs[i].job_id)
+}
+
+/// no job entered the "judged up to date, parked" states
+spec fn no_new_parked(a: Seq<NodeInfo>, b: Seq<NodeInfo>) -> bool {
+    a.len() == b.len() && forall|i: int| #![trigger is_parked_eph(b[i].state)] 0 <= i < b.len() && is_parked_eph(b[i].state) ==> is_parked_eph(a[i].state)
+}
+
 /// two-state relation of every mutating operation on the job table
 spec fn jobs_step(a: Seq<NodeInfo>, b: Seq<NodeInfo>) -> bool {
     &&& a.len() == b.len()
@@ -303,6 +314,7 @@ impl<T: PPGEvaluatorStrategy> PPGEvaluator<T> {
     spec fn wf(&self) -> bool {
         &&& self.wf_core()
         &&& self.signals@.len() == 0
+        &&& val_rec(self.jobs@, self.history@)
     }
 
     /// every observable aspect equal (C20).  Vec/HashMap are compared by view: Verus has no
